@@ -21,6 +21,26 @@ def run(ctx):
     findings, stats, kinds = irmd.replay_file(res.out_path, nproc=NCPU)
     if stats.get("unparsed"):
         raise MachineryError(f"{stats['unparsed']} emitted records could not be parsed")
+    os.unlink(res.out_path)
+    # nested configuration: the second node lives in the body of the first one and captures values of the main graph
+    cfgn = os.path.join(ctx.scratch, "MultiDeviceMC_nested.cfg")
+    open(cfgn, "w").write(re.sub(r"MaxDepth = \d+", f"MaxDepth = {4 if thorough else 3}", src).replace("Nested = FALSE", "Nested = TRUE"))
+    resn = ctx.tlc(os.path.join(IR, "MultiDeviceMC.tla"), cfgn, tag="mc-md-nested", timeout=6000)
+    if not resn.ok:
+        raise MachineryError(f"design spec check failed (nested): {resn.violated} {resn.errors[:2]}\n{resn.tail(25)}")
+    f2, st2, k2 = irmd.replay_file(resn.out_path, nproc=NCPU)
+    if st2.get("unparsed"):
+        raise MachineryError(f"{st2['unparsed']} emitted records could not be parsed (nested)")
+    if st2.get("pre_mismatch", 0) == st2.get("states", 0):
+        raise MachineryError("nested configuration: no state could be rebuilt on the real objects")
+    for sig, f in f2.items():
+        sig2 = sig if ":nested" in sig else sig + ":nested"
+        if sig2 not in findings:
+            findings[sig2] = dict(f, nested=True)
+    for k, v in st2.items():
+        stats[k] = stats.get(k, 0) + v
+    stats["nested_states"] = st2.get("states", 0)
+    kinds.update({"nested|" + str(k): v for k, v in k2.items()})
     divs = {}
     for sig, f in findings.items():
         if f["cls"] == "C19":
@@ -33,7 +53,7 @@ def run(ctx):
         ctx._distinct.add(k)
     ctx.extra["divergences"] = divs
     ctx.extra["state_checks"] = {k: v for k, v in stats.items() if k not in ("calls", "states")}
-    ctx.samples = [{"kinds": sorted(kinds)[:12]}]
+    ctx.samples = [{"kinds": sorted(map(str, kinds))[:12]}]
     ctx.rule = ("TLC explores MultiDeviceMC: shard / set_pipeline_stage / add_ and remove_device_configuration(cascade) (with every rejection "
                 "branch) interleaved with replace_input_with, resize_inputs/outputs, replace_all_uses_with and renames over a two-node model; "
                 "NoDangle, WellFormed, Canonical are invariants of the design; every (state, call) is executed on a real ir.Model and the "
@@ -47,7 +67,8 @@ def run(ctx):
 
 def replay(ctx, detail) -> bool:
     r = irmd.MDReplayer()
-    u = r.build(detail["history"])
+    ng = 2 if any(c[0][0] in ("NewNode", "IOAppend") and c[0][1] == 2 for c in detail["history"]) else 1
+    u = r.build(detail["history"], ng)
     pre = u.project_m()
     if detail.get("call"):
         got = u.apply(irmd.call_from_compact(detail["call"]))
